@@ -401,9 +401,9 @@ func init() {
 	c15Lib := func(tier string) int64 { return tierN(tier, 60000, 2000000) }
 	c15Cli := func(tier string) int64 { return tierN(tier, 24, 200) }
 	fw.Register(&fw.Property{
-		ID:    "C15",
-		Level: "exploration",
-		Rule: "case = 1..12 cues with boundaries in [0,24h] (ns, us, ms or s granular) and a reference quadruple a1 != a2 anywhere in [0,24h] (also 1 ms apart), slope one of 25/23.976, 23.976/25, 30/29.97, 29.97/30, 1, 1/2, 2, 1001/1000, 1000/1001, 3/2 or random in 0.5..2; d1 may lie below a1 so that boundaries map below zero. Oracle: math/big.Rat value of d1+(t-a1)(d2-d1)/(a2-a1), |got-exact| <= 1 us per boundary, cue length scaled (<= 2 us), a1->d1 and a2->d2, boundary order preserved for positive slope, cue count/identity/content unchanged. CLI: apply-linear-correction on SRT (ms truncation allowed for). distinct_nontrivial = distinct (list, quadruple) inputs compared.",
+		ID:          "C15",
+		Level:       "exploration",
+		Rule:        "case = 1..12 cues with boundaries in [0,24h] (ns, us, ms or s granular) and a reference quadruple a1 != a2 anywhere in [0,24h] (also 1 ms apart), slope one of 25/23.976, 23.976/25, 30/29.97, 29.97/30, 1, 1/2, 2, 1001/1000, 1000/1001, 3/2 or random in 0.5..2; d1 may lie below a1 so that boundaries map below zero. Oracle: math/big.Rat value of d1+(t-a1)(d2-d1)/(a2-a1), |got-exact| <= 1 us per boundary, cue length scaled (<= 2 us), a1->d1 and a2->d2, boundary order preserved for positive slope, cue count/identity/content unchanged. CLI: apply-linear-correction on SRT (ms truncation allowed for). distinct_nontrivial = distinct (list, quadruple) inputs compared.",
 		Assumptions: []string{"slopes between 0.5 and 2, boundaries within [0,24h] (the property's quantifier)"},
 		Cases:       func(tier string) int64 { return c15Lib(tier) + c15Cli(tier) },
 		Anchors:     []string{"Subtitles.ApplyLinearCorrection", "astisub/main.go apply-linear-correction"},
